@@ -1120,6 +1120,19 @@ def run(ctx: Ctx) -> None:
                         break
                     cur = p
                 if not wrapped:
+                    # only a use that flows into the printed text is a violation; anything else is a shape we do not know
+                    cur2: Optional[ast.AST] = u
+                    printing = False
+                    while cur2 is not None and cur2 is not meth:
+                        p2 = par.get(cur2)
+                        if isinstance(p2, ast.Attribute) or (isinstance(p2, ast.Call) and pf.dotted(p2.func) == 'str' and cur2 in p2.args):
+                            cur2 = p2
+                            continue
+                        printing = isinstance(p2, (ast.FormattedValue, ast.JoinedStr)) or (isinstance(p2, ast.BinOp) and isinstance(p2.op, ast.Add)) or \
+                            (isinstance(p2, ast.Call) and isinstance(p2.func, ast.Attribute) and p2.func.attr in ('format', 'append', 'join', 'write') and cur2 in p2.args)
+                        break
+                    ctx.need(printing, f'{F_TYPES}::{cname}.{mname}: use of `{pf.nsrc(u)}` (line {getattr(u, "lineno", 0)}) is neither wrapped in '
+                                       f'escape_parsable nor a recognised printing context')
                     raw.append(u)
             ctx.check(not raw, 'R3', f'{F_TYPES}::{cname}.{mname}::{attr_desc} printed through escape_parsable',
                       f'{cname}.{mname} prints the {attr_desc} `{pf.nsrc(raw[0]) if raw else ""}` without escape_parsable (line {getattr(raw[0], "lineno", 0) if raw else 0}): '
